@@ -552,6 +552,35 @@ def shape_defs(rng, builtins):
             d = {'name': 'ShCtxBig%d' % (2 * i + j), 'items': [('errortype',)] + items}
             if well_formed(d, builtins):
                 out.append(d)
+    # BIG definitions: the dimensions in which small random definitions never grow — many rules in one rule set (keywords of all lengths,
+    # long literals, shared prefixes), many rule sets, many alternatives in one rule, a variable used many times, automata with dozens of
+    # states. A fast path, a resized table, a narrow index or a coarse cache key only shows beyond such thresholds.
+    kws = ['if', 'in', 'int', 'interface', 'internal', 'implements', 'import', 'else', 'elif', 'end', 'enum', 'extern', 'extends', 'exception_handler',
+           'while', 'when', 'where', 'with', 'without_a_doubt', 'fn', 'for', 'foreach', 'function', 'functional', 'f', 'a_rather_long_keyword_indeed']
+    ops = ['+', '++', '+=', '-', '--', '-=', '->', '=', '==', '===', '=>', '<', '<=', '<<', '<<=', '>', '>=', '>>', '>>=', '>>>', '!', '!=', '&&', '&', '||', '|']
+    ident = cat(set_((ord('a'), ord('z')), ord('_')), ('star', set_((ord('a'), ord('z')), (ord('0'), ord('9')), ord('_'))))
+    number = alt(('plus', set_((ord('0'), ord('9')))), cat(('plus', set_((ord('0'), ord('9')))), chr_('.'), ('plus', set_((ord('0'), ord('9'))))))
+    big1 = [rule('none', ('plus', set_(ord(' '), 10, 9)))] + [rule('simple', str_(k)) for k in kws] + [rule('infallible', ident), rule('fallible', number)] + \
+           [rule('simple', str_(o)) for o in ops] + [rule('simple', ANY)]
+    out.append({'name': 'ShBigRules0', 'items': [('errortype',)] + big1})
+    big2 = list(big1)
+    rng.shuffle(big2)
+    big2 = [r for r in big2 if r[2] != ANY] + [rule('simple', ANY)]
+    out.append({'name': 'ShBigRules1', 'items': [('errortype',)] + big2})
+    # one rule with many alternatives, a variable used many times, nested
+    manyalt = alt(*[str_(k) for k in kws[:14]])
+    out.append({'name': 'ShBigAlt0', 'items': [('errortype',), ('let', 'kw', manyalt), ('let', 'd', set_((ord('0'), ord('9')))),
+                                               rule('simple', ('var', 'kw')), rule('simple', cat(('var', 'kw'), chr_('('), ('star', alt(('var', 'kw'), ('var', 'd'), chr_(','))), chr_(')'))),
+                                               rule('infallible', cat(('var', 'd'), ('var', 'd'), ('var', 'd'), ('var', 'd'), chr_('-'), ('var', 'd'), ('var', 'd'))),
+                                               rule('simple', ('plus', ('var', 'd'))), rule('simple', ident, alt(chr_('('), ('var', 'kw'))), rule('simple', ANY)]})
+    # many rule sets, each with its own keywords, switches in a ring and back to Init
+    names = ['Init'] + ['R%d' % j for j in range(1, 7)]
+    sets = []
+    for j, nm in enumerate(names):
+        rs = [rule('infallible', chr_('[' if j % 2 == 0 else '{')), rule('infallible', chr_(']' if j % 2 == 0 else '}'))]
+        rs += [rule('simple', str_(k)) for k in kws[3 * j: 3 * j + 4]] + [rule('none', chr_(' ')), rule('simple', ident if j % 3 else number), rule('simple', EOI)]
+        sets.append(('ruleset', nm, rs))
+    out.append({'name': 'ShBigSets0', 'items': [('errortype',)] + sets})
     # two different large classes (two search tables) in one lexer, interleavable through clones (C15, C13)
     for i, (n1, n2) in enumerate([('XID_Start', 'XID_Continue'), ('alphabetic', 'numeric')]):
         out.append({'name': 'ShTwoTab%d' % i, 'items': [('errortype',), rule('simple', cat(('bi', n1), ('star', ('bi', n2)))), rule('simple', ('plus', ('bi', 'whitespace'))),
